@@ -292,3 +292,14 @@ Lemma bb_skew_t2sq_spec n a b : 0 < a -> 0 < b -> (0 < n)%nat ->
 Proof.
   intros Ha Hb Hn. unfold bb_skew_t2sq, bb_var. pose proof (natQ_pos n Hn). field. repeat split; lra.
 Qed.
+
+Lemma bb_pdf_prob_vector n a b : 0 < a -> 0 < b ->
+  length (bb_pdf n a b) = S n /\ Forall (fun v => 0 <= v) (bb_pdf n a b) /\ sum_list (bb_pdf n a b) == 1.
+Proof.
+  intros Ha Hb. split; [unfold bb_pdf; rewrite map_length, seq_length; reflexivity|].
+  split; [exact (bb_pdf_nonneg n a b Ha Hb)|exact (bb_pdf_sums_to_one n a b Ha Hb)].
+Qed.
+Lemma bb_skew_spec n a b : 0 < a -> 0 < b ->
+  bb_moment3c n a b == bb_skew_t1 n a b * bb_var n a b / (a + b) /\
+  ((0 < n)%nat -> bb_skew_t2sq n a b * bb_var n a b * ((a + b) * (a + b)) == 1).
+Proof. intros Ha Hb. exact (conj (bb_moment3_spec n a b Ha Hb) (bb_skew_t2sq_spec n a b Ha Hb)). Qed.
